@@ -166,6 +166,9 @@ def check_case(ck, case, ans, stats):
                       {"case": strip(case), "real_rows": duck.show(real["rows"]), "expected_body": [[str(v) for v in r] for r in spec[:12]], "sql": real["sql"]},
                       finding_key=key)
     stats["covered"] = stats.get("covered", 0) + (1 if ans.get("covered") else 0)
+    stats["covered_full"] = stats.get("covered_full", 0) + (1 if ans.get("covered_full") else 0)
+    if ans.get("covered_full") and ans.get("n_metric_filters", 0) > 0:
+        stats["covered_full_mf"] = stats.get("covered_full_mf", 0) + 1
     stats["covered_raw"] = stats.get("covered_raw", 0) + (1 if ans.get("covered_raw") else 0)
     stats["ungrouped_cases"] = stats.get("ungrouped_cases", 0) + (1 if q.get("ungrouped") else 0)
     if len(table["rows"]) >= 2 and (q["metrics"] or q["dims"]):
@@ -319,6 +322,8 @@ def run(ck: Check):
         "evaluations": len(cases) + stats.get("inline_cases", 0), "distinct_nontrivial": len(stats["nontrivial"]),
         "rule": "measures declared only as SQL text AGG(expr) over engine operators (/, //, %, CASE) vs that text evaluated directly; random model (table/sql-backed, single/composite pk, {model} placeholders, expression dims, time dims with base granularity, every aggregation, metric filters) x table (0..30 rows, NULLs, duplicates, negatives) x 3 queries (dims/metrics subsets, granularities, filters of every form incl. hostile literals and metric-value filters, order/limit/offset incl. 0, ungrouped, aliases); non-trivial = table has >= 2 rows and the query selects something",
         "outcome_distribution": dict(stats["outcomes"]), "aggregations": dict(aggs), "disagreements": stats["disagree"], "cases_inside_theorem_C01_grouped": stats.get("covered", 0),
+        "cases_inside_theorem_C01_grouped_result": stats.get("covered_full", 0),
+        "of_which_with_metric_value_filters": stats.get("covered_full_mf", 0),
         "cases_inside_theorem_C01_ungrouped": stats.get("covered_raw", 0), "ungrouped_cases": stats.get("ungrouped_cases", 0),
         "traces_validated_against_impl": len(cases),
         "samples": [strip(cases[1]), strip(cases[-1])],
